@@ -49,7 +49,9 @@ def leaf_pool(draw, profile="small", allow_const=False, max_bool=5, max_int=3, m
             # beyond the 16-bit default: single bounds fit 32 bits, sums of two or three do not
             b = list(draw(st.sampled_from([(0, 2_000_000_000), (-2_000_000_000, 2_000_000_000), (-1_500_000_000, 1_200_000_000),
                                            (1_000_000_000, 2_000_000_000), (-2_000_000_000, -1), (0, 2 ** 31 - 1), (-2 ** 31, 0),
-                                           (1_200_000_000, 1_200_000_000)])))
+                                           (1_200_000_000, 1_200_000_000),
+                                           # just beyond the 16-bit default range
+                                           (0, 32768), (-32769, 5), (0, 65536), (-40000, 40000), (32767, 32769), (-32770, -32768)])))
             if b[0] == b[1] and not allow_const:
                 b = [0, 2_000_000_000]
         elif profile == "large" and draw(st.integers(0, 2)) > 0:
@@ -218,7 +220,7 @@ def scale_spec(draw, booleans_only=False, allow_const=False):
     'bushy' a tree with 60-250 nodes; 'many' 20-70 small rules under one conjunction (a rule base); 'longids' ids of
     40-300 characters (also ids that only differ near their end). Sizes are drawn around the round numbers at which
     implementations switch strategy (16, 32, 64, 100, 128)."""
-    shape = draw(st.sampled_from(["wide", "wide", "deep", "bushy", "many", "longids"]))
+    shape = draw(st.sampled_from(["wide", "wide", "deep", "bushy", "many", "longids", "rulebase"]))
     L = lambda i, b=(0, 1): {"k": "leaf", "id": i, "b": list(b)}
     around = lambda: draw(st.sampled_from([17, 20, 31, 32, 33, 40, 63, 64, 65, 65, 66, 100, 101, 128, 129, 130, 140, 200, 256, 257, 300]))
     if shape == "wide":
@@ -284,8 +286,8 @@ def scale_spec(draw, booleans_only=False, allow_const=False):
             return n_
         node = tree(draw(st.integers(3, 5)))
     elif shape == "many":
-        r = draw(st.sampled_from([20, 31, 32, 33, 50, 64, 65, 70]))
-        nl = draw(st.sampled_from([8, 16, 30, 60]))
+        r = draw(st.sampled_from([20, 31, 32, 33, 50, 64, 65, 70, 100, 128, 129, 200, 256, 257, 300]))
+        nl = draw(st.sampled_from([8, 16, 30, 60, 200, 600]))
         rules = []
         for j in range(r):
             a, b, c = ("i%02d" % ((3 * j + q * (j % 5 + 1)) % nl) for q in range(3))
@@ -299,6 +301,20 @@ def scale_spec(draw, booleans_only=False, allow_const=False):
                     n_["v"] = 1
                 rules.append(n_)
         node = {"k": "All", "id": "rules", "c": rules}
+    elif shape == "rulebase":
+        # MANY independent rules over disjoint leaves, every rule satisfied by the all-ones assignment: a model with hundreds
+        # of rows / objects that still has satisfying assignments to start from
+        r = draw(st.sampled_from([64, 65, 86, 100, 128, 129, 255, 256, 257, 300]))
+        rules = []
+        for j in range(r):
+            k = draw(st.sampled_from(["Any", "Any", "Imply", "All", "AtLeast"]))
+            x, y = L("x%03d" % j), L("y%03d" % j)
+            rid = draw(st.sampled_from(["R%03d" % j, "R%03d" % j, None]))
+            if k == "AtLeast":
+                rules.append({"k": "AtLeast", "v": 1, "s": 1, "id": rid, "c": [x, y]})
+            else:
+                rules.append({"k": k, "id": rid, "c": [x, y]})
+        node = {"k": "All", "id": draw(st.sampled_from(["A", None])), "c": rules}
     else:
         n = draw(st.integers(3, 8))
         ln = draw(st.sampled_from([40, 64, 65, 128, 200, 300]))
@@ -361,6 +377,28 @@ def scale_case(draw, n_points=(10, 16), **kw):
                 v = lo + (seed_bits >> (j % 50)) % (hi - lo + 1)
             row.append(v)
         pts.append(row)
+    return {"model": spec, "points": pts}
+
+
+def rulebase_case(r, kinds=("Any",), falsify=(0, 1, 2)):
+    """deterministic LARGE rule base: All over r rules R_j over the disjoint leaves (x_j, y_j); points: all leaves 1 with the
+    leaves of k rules set to 0, for each k in ``falsify`` (rules taken from both ends and the middle)"""
+    L = lambda i: {"k": "leaf", "id": i, "b": [0, 1]}
+    rules = []
+    for j in range(r):
+        k = kinds[j % len(kinds)]
+        n_ = {"k": k, "id": "R%04d" % j, "c": [L("x%04d" % j), L("y%04d" % j)]}
+        if k == "AtLeast":
+            n_["v"], n_["s"] = 1, 1
+        rules.append(n_)
+    spec = {"k": "All", "id": "A", "c": rules}
+    ids = sorted(["x%04d" % j for j in range(r)] + ["y%04d" % j for j in range(r)])
+    pts = []
+    for k in falsify:
+        k = min(k, r)
+        chosen = set(range(k // 2)) | set(range(r - (k - k // 2), r))
+        zero = {"x%04d" % j for j in chosen} | {"y%04d" % j for j in chosen}
+        pts.append([0 if i in zero else 1 for i in ids])
     return {"model": spec, "points": pts}
 
 
